@@ -21,6 +21,11 @@ def bounded_status(tier, seed):
     return r
 
 
+def bounded_rfc(tier, seed):
+    from bounded import client_bounded as cb
+    return cb.bounded_rfc_transcripts(PID, tier, seed)
+
+
 def plan(tier):
     runner.get_index()
     from contracts import client
@@ -54,7 +59,7 @@ def plan(tier):
             or label.startswith("R3.") or ".loop0." in label
 
     pl.label_filter = lf
-    pl.bounded = [bounded_sessions, bounded_status]
+    pl.bounded = [bounded_sessions, bounded_status, bounded_rfc]
     pl.functions = [("sievelib.managesieve", "Client.__send_command")] + \
                    [("sievelib.managesieve", "Client.%s" % m) for m in client.SCRIPT_METHODS]
     pl.trusted = [common.TRUSTED_SERVER, common.TRUSTED_ENV_SOCKET]
